@@ -6,12 +6,16 @@
    The correspondence check executes the BigZ instance [fast_prims]; Proofs/EcdsaRefine.v proves the two equal
    (that file, and only it, depends on the Uint63 axioms of the standard library).
 
-   PREMISE [secp256k1_group] (Proofs/EcdsaSecp.v) of the "verifies" / ECDH statements: on valid points (on the curve,
-   coordinates in [0,p)) padd / pneg / smul of Prim/Secp256k1.v are closed and form an abelian group with Z-action
-   smul; lift_x inverts (xcoord, yodd); yodd (pneg P) = negb (yodd P); G has order exactly n.
-   It is the trusted statement that secp256k1 is a group of prime order — not proved here.  What IS proved for the
-   concrete formulas: n is prime and p is prime (Proofs/SecpPrimes.v: Pratt certificates checked inside Coq,
-   Fermat's little theorem in Proofs/Primality.v), n*G = O (by evaluation), O + P = P, x(-P) = x(P), modular inverses by extended Euclid.
+   PREMISE [secp256k1_group] (Proofs/EcdsaSecp.v) of the "verifies" / ECDH statements, three statements about valid
+   points (on the curve, coordinates in [0,p)) of Prim/Secp256k1.v:
+     sg_add_assoc (padd is associative),
+     sg_mul_add (smul (a+b) P = padd (smul a P) (smul b P)), sg_mul_mul (smul (a*b) P = smul a (smul b P)).
+   They are the part of "secp256k1 is a group" that is not proved here (associativity of chord-and-tangent and the
+   agreement of the Jacobian ladder with it).  What IS proved for the concrete formulas (Proofs/SecpGroupPartial.v):
+   closure of padd, pneg and smul, commutativity, P + (-P) = O, 1*P = P, yodd (pneg P) = negb (yodd P) (no curve point
+   has y = 0), lift_x inverts (xcoord, yodd), G has order exactly n (from the two scalar laws); and n is prime and p
+   is prime (Proofs/SecpPrimes.v: Pratt certificates checked inside Coq, Fermat's little theorem in
+   Proofs/Primality.v), n*G = O (by evaluation), O + P = P, x(-P) = x(P), modular inverses by extended Euclid.
    Proofs/EcdsaAbstractInst.v shows that the abstract hypotheses are jointly satisfiable (toy group).
 
    NOT a theorem (`partial`): "fails to verify for a different message, hash choice or key" — it needs collision
